@@ -3,7 +3,7 @@
 // Lists every `range` over a MAP in internal/graph, internal/report and internal/driver whose body
 // feeds something order-sensitive:
 //
-//	append:<slice type>   the body appends to a slice (directly or to a slice stored in a map/field)
+//	append                the body appends to a slice (directly or to a slice stored in a map/field)
 //	write:<callee>        the body writes output (fmt.Fprint*, fmt.Print*, Write, WriteString)
 //	concat:string         the body concatenates onto a string
 //	floatsum:<type>       the body accumulates a floating-point sum (addition is not associative)
@@ -125,6 +125,7 @@ func parseInto(fset *token.FileSet, path string) (*ast.File, error) {
 
 type mrSite struct {
 	file, fn, mapType, sink string
+	sinkType                string // of an append sink; comment only (a rewrite may change the slice type)
 	sorted                  bool
 	flows                   []string
 	line                    int
@@ -455,7 +456,7 @@ func genMapRanges(e *Env) (string, error) {
 						line: p.fset.Position(rs.Pos()).Line, over: src(p.fset, rs.X)}
 					seenSink := map[string]bool{}
 					emit := func(s mrSite) {
-						key := s.sink + "|" + strings.Join(s.flows, ",")
+						key := s.sink + "|" + s.sinkType + "|" + strings.Join(s.flows, ",")
 						if seenSink[key] {
 							return
 						}
@@ -479,7 +480,8 @@ func genMapRanges(e *Env) (string, error) {
 													lt = p.info.Defs[id].Type()
 												}
 											}
-											s.sink = "append:" + typeStr(lt)
+											s.sink = "append"
+											s.sinkType = typeStr(lt)
 											if _, indexed := x.Lhs[0].(*ast.IndexExpr); indexed {
 												ix := x.Lhs[0].(*ast.IndexExpr)
 												if mentions(p.info, ix.Index, iter) {
@@ -580,9 +582,9 @@ func genMapRanges(e *Env) (string, error) {
 				returned = true
 			}
 		}
-		fmt.Fprintf(&b, "  -- line %d: range %s   then: %s\n", s.line, strings.Join(strings.Fields(s.over), " "), strings.Join(s.flows, ", "))
+		fmt.Fprintf(&b, "  -- line %d: range %s   %s   then: %s\n", s.line, strings.Join(strings.Fields(s.over), " "), s.sinkType, strings.Join(s.flows, ", "))
 		kind := s.sink
-		if i := strings.IndexByte(kind, ':'); i >= 0 {
+		if i := strings.IndexAny(kind, ": "); i >= 0 {
 			kind = kind[:i]
 		}
 		fmt.Fprintf(&b, "  { file := %s, fn := %s, mapType := %s, kind := .%s, sink := %s, sorted := %v, returned := %v }%s\n",
